@@ -3,6 +3,7 @@ use vstd::prelude::*;
 use std::convert::{TryFrom, TryInto};
 verus! {
 global size_of usize == 8;
+//@ include units/common/float.inc.rs
 //@ item layout21tetris/src/coords.rs :: type Int
 //@ end
 //@ include units/tetris_place/coords.inc.rs
